@@ -373,7 +373,7 @@ def differs(a: dict, b: dict, tol: float | None) -> str | None:
 
 
 def run_case(case: dict) -> dict:
-    from ase.io.jsonio import read_json
+    from ase.io.jsonio import encode, read_json
 
     n = case["n"]
     tol = 1e-10 if case.get("calc") == "emt" else None
@@ -407,6 +407,7 @@ def run_case(case: dict) -> dict:
                 f.write(texts[k])
             try:
                 data = read_json(p2)
+                data_text = encode(data)          # the loaded dictionary as it is before it is used
                 sim2 = cls.from_dict(data)
                 newcalc = make_calc(case.get("calc", "pure"), committee=case["driver"] == "AdaptiveForceBias")
                 if k % 2 == 1 and case.get("calc", "pure") == "pure":
@@ -439,6 +440,15 @@ def run_case(case: dict) -> dict:
                 sim2.close()
                 continue
             sim2.close()
+            # the loaded dictionary may be used again (a second replica, a retry): rebuilding and running must not have
+            # changed it
+            try:
+                if encode(data) != data_text:
+                    out["problems"].append({"k": k, "what": "loaded-dictionary-modified",
+                                            "message": f"restart at k={k}: the dictionary read from the file was modified by "
+                                                       "from_dict()/run(): a second rebuild from it would start elsewhere"})
+            except Exception as e:  # noqa: BLE001
+                out["problems"].append({"k": k, "what": f"loaded-dictionary-unreadable:{type(e).__name__}", "message": str(e)[:200]})
             for j in range(k + 1, n + 1):
                 if j not in obs2:
                     out["problems"].append({"k": k, "what": "missing-step", "message": f"step {j} not observed after restart at {k}"})
